@@ -236,6 +236,36 @@ def run(tier, seed, replay=None):
                                  'token_types': [t.type for t in toks], 'text': tokens_text(toks), 'case': desc,
                                  'implementation': r, 'model': ms,
                                  'checked_by': 'Earley recogniser over the dumped productions (search support)'})
+        # ---- end to end: parse_sql itself (its own preprocessing of the text and the real lexer included).  What the property
+        # allows to be dropped is written here a second time: trailing semicolons and white space, nothing else.
+        if not replay or (rp.get('dialect') == dialect and 'sql_text' in rp):
+            from mindsdb_sql import parse_sql
+            from sqlcorpus import harvest
+            base = [s for s in harvest()[dialect] if len(s) < 200][:40] + ['select 1', 'show databases', 'select a from t where b = 2']
+            wraps = [';{}', ';;{}', ' ;\n; {}', '{};;', '{} ; ;', '; {} ;', '{}\n;\n', '\n\n{}', ',{}', '){}', '{} )', '({}', ';', '; ', ';;;']
+            texts_ = [w.format(s) for s in base for w in wraps] if not replay else [rp['sql_text']]
+            n_acc = 0
+            for txt in texts_:
+                try:
+                    parse_sql(txt, dialect)
+                except Exception:
+                    continue
+                n_acc += 1
+                evaluations += 1
+                spec_text = re.sub(r'[\s;]+$', '', txt)
+                try:
+                    stoks = lex(dialect, spec_text)
+                    why = None if earley_accepts(sd, [num[t.type] for t in stoks]) else 'its token sequence is not a sentence of the grammar'
+                except Exception as e:
+                    why = f'the lexer rejects it ({type(e).__name__})'
+                    stoks = []
+                if why and found < 3:
+                    found += 1
+                    R.violation({'dialect': dialect, 'sql_text': txt, 'text_after_stripping_trailing_semicolons': spec_text,
+                                 'token_types': [t.type for t in stoks],
+                                 'what': 'parse_sql accepted a text although, after the trailing semicolons and white space are stripped, ' + why,
+                                 'checked_by': 'real lexer + Earley recogniser over the dumped productions'})
+            stats[dialect]['text_level_accepted'] = n_acc
         if mism and not found:
             i = mism[0]
             desc, toks, syms, r = rows[i]
